@@ -273,7 +273,7 @@ def build_value(d):
 
 
 # every kind of original error: the message must render and end the text
-N_MESSAGE = 26 + 5 * 4 * 3 + 1 + 5 + 5 + 5 + 5
+N_MESSAGE = 26 + 5 * 4 * 3 + 1 + 5 + 5 + 5 + 5 + 4
 
 
 def message_cases():
@@ -318,7 +318,7 @@ def message_cases():
         # F40: original errors whose class brings a __str__ of its own (KeyError, the OSError family)
         ('callable-keyerror', {'a': 1}, ('a', lambda t: {}['k'])),
         ('callable-oserror', {'a': 1}, ('a', lambda t: open('/nonexistent/zz/file'))),
-    ] + guard_cases() + note_cases() + depth_cases() + recovered_cases() + falsy_cases()
+    ] + guard_cases() + note_cases() + depth_cases() + recovered_cases() + falsy_cases() + lazy_trace_cases()
 
 
 def _refuse_all(x):
@@ -341,6 +341,29 @@ def recovered_cases():
         ('recovered:nested', {'a': 1}, Check(Check(Coalesce('zz', default_factory=int), validate=_accept), validate=_refuse_all), ['CheckError'], leak),
         ('recovered:control', {'a': 1}, Check(Coalesce('zz', default=0), validate=_refuse_all), ['CheckError'], leak),
     ]
+
+
+def lazy_trace_cases():
+    """children that are evaluated AFTER the scope they hang under has finished: the items of a lazy Iter consumed by a later step
+    (F43), and the key of First, run through Spec.glom on a flattened scope (F44).  Required: each spec on the way once — the 6th
+    element caps how often a line may occur"""
+    from glom import Iter
+    from glom.streaming import First
+    rows = {'x': [{'a': 1}, {'b': 1}]}
+    once = {"Spec: 'a'": 1, "Spec: Iter('a')": 1, 'Spec: list': 1}
+    return [
+        ('lazy:iter-then-list', rows, ('x', Iter('a'), list), ["Spec: Iter('a')", "Spec: 'a'", "Target: {'b': 1}"], [], once),
+        ('lazy:iter-all', rows, ('x', Iter('a').all()), ["Spec: 'a'", "Target: {'b': 1}"], [], {"Spec: 'a'": 1, "Spec: Iter('a')": 1}),
+        ('lazy:first-key', {'x': [{'b': 0}]}, ('x', First('b.q')), ["Spec: First('b.q')", "Spec: 'b.q'", "Target: {'b': 0}"]),
+        ('lazy:eager-control', rows, ('x', ['a']), ["Spec: ['a']", "Spec: 'a'", "Target: {'b': 1}"], [], {"Spec: 'a'": 1}),
+    ]
+
+
+def matches_finding(f, case, out):
+    if case.get('kind') != 'message':
+        return False
+    name = out.get('name', '')
+    return (f['id'] == 'F43' and name in ('lazy:iter-then-list', 'lazy:iter-all')) or (f['id'] == 'F44' and name == 'lazy:first-key')
 
 
 def _falsy_raiser(cls_name, text):
@@ -487,6 +510,8 @@ def run_message(case):
             return out
         tl = text.split('\n')
         out['missing'] = [x for x in needs if x not in text]
+        caps = entry[5] if len(entry) > 5 else {}
+        out['repeated'] = ['%s x%d' % (x, text.count(x)) for x, n in caps.items() if text.count(x) > n]
         out['leaked'] = [x for x in forbidden if x in text]
         out['has_trace'] = len(tl) > 2 and tl[1] == ' Target-spec trace (most recent last):'
         out['first_is_target'] = len(tl) > 2 and tl[2].startswith(' - Target: ')
@@ -619,6 +644,8 @@ def direct_oracle(case, out):
             return 'no target-spec trace beginning with the root target (%s)' % out['name']
         if out.get('missing'):
             return 'the trace of %s does not show %r' % (out['name'], out['missing'])
+        if out.get('repeated'):
+            return 'the trace of %s repeats lines of one evaluation: %r' % (out['name'], out['repeated'])
         if out.get('leaked'):
             return 'the trace of %s shows %r: a failure that was recovered from, not on the path of the error' % (out['name'], out['leaked'])
         if not out['last_ok']:
